@@ -65,6 +65,9 @@ type vpScenario struct {
 	Cfg    vpCfg    `json:"cfg"`
 	Rounds [][]vpOp `json:"rounds"`
 	Mode   string   `json:"mode"` // which verdict group is asserted: C01 | C06 | C07
+	// LoadDelayUS: the metadata lookup of the periodic sync takes this long (widens the
+	// window in which a sync overlaps an assign on the same interface)
+	LoadDelayUS int `json:"load_delay_us,omitempty"`
 }
 
 const vpPods = 8
@@ -165,6 +168,9 @@ func vpGenOp(t *rapid.T, mode string) vpOp {
 func vpGen(mode string) func(t *rapid.T) vpScenario {
 	return func(t *rapid.T) vpScenario {
 		s := vpScenario{Mode: mode, Cfg: vpGenCfg(t, mode)}
+		if rapid.IntRange(0, 2).Draw(t, "loaddelay") == 0 {
+			s.LoadDelayUS = rapid.IntRange(50, 1500).Draw(t, "loaddelayus")
+		}
 		nr := rapid.IntRange(1, vt.Scale(8, 20)).Draw(t, "rounds")
 		for i := 0; i < nr; i++ {
 			n := rapid.IntRange(1, 6).Draw(t, "nops")
@@ -362,6 +368,10 @@ func vpBuild(c *vt.Ctx, s vpScenario) *vpWorld {
 
 	w.cloud.Hook = w.hook
 	w.cloud.Gate = w.gate
+	if s.LoadDelayUS > 0 {
+		d := time.Duration(s.LoadDelayUS) * time.Microsecond
+		w.cloud.AfterLoad = func() { time.Sleep(d) }
+	}
 
 	w.ctx, w.cancel = context.WithCancel(context.Background())
 	for _, ni := range nis {
@@ -928,6 +938,9 @@ func (w *vpWorld) checkAgreement(final bool) {
 						if !ip.Valid() && cloudSet[a] && ip.status == ipStatusDeleting {
 							w.failf("C07", "quiescent pool still has %s %s on %s marked deleting while the cloud has it", fam, a, id)
 						}
+						if ip.status == ipStatusInvalid && cloudSet[a] {
+							w.failf("C07", "pool marks %s %s on %s as invalid (seen removed) although the cloud reports it on the interface", fam, a, id)
+						}
 					}
 					for a := range cloudSet {
 						if _, ok := set[a]; !ok {
@@ -962,6 +975,42 @@ func (w *vpWorld) checkAgreement(final bool) {
 			if !ok || h.pod != u[1] {
 				w.failfLocked("C07", "address %s on %s is marked owned by %s, which holds no such address", a, st.NetworkInterfaceID, u[1])
 			}
+		}
+	}
+}
+
+// checkInvalidOnlyIfGone: the pool may mark an address invalid ("seen removed by the cloud
+// sync") only if the cloud really no longer reports it on the interface. The simulated
+// cloud never re-adds an address, so this holds at any instant, not only at quiescence.
+func (w *vpWorld) checkInvalidOnlyIfGone() {
+	type inv struct {
+		eni string
+		a   netip.Addr
+	}
+	var list []inv
+	for _, l := range w.locals {
+		l.cond.L.Lock()
+		if l.eni != nil {
+			for a, ip := range l.ipv4 {
+				if ip.status == ipStatusInvalid {
+					list = append(list, inv{l.eni.ID, a})
+				}
+			}
+			for a, ip := range l.ipv6 {
+				if ip.status == ipStatusInvalid {
+					list = append(list, inv{l.eni.ID, a})
+				}
+			}
+		}
+		l.cond.L.Unlock()
+	}
+	if len(list) == 0 {
+		return
+	}
+	snap := w.cloud.Snapshot()
+	for _, x := range list {
+		if e := snap[x.eni]; e != nil && (e.V4[x.a] || e.V6[x.a]) {
+			w.failf("C07", "pool marks %s on %s as invalid (seen removed by the cloud sync) although the cloud reports it on the interface", x.a, x.eni)
 		}
 	}
 }
@@ -1065,6 +1114,9 @@ func vpRunOpt(c *vt.Ctx, s vpScenario, noGuard bool) {
 		}
 		wg.Wait()
 		w.checkOwners()
+		if s.Mode == "C07" {
+			w.checkInvalidOnlyIfGone()
+		}
 		if len(w.fails) > 0 {
 			break
 		}
